@@ -107,18 +107,292 @@ class Abort(Exception):
     """Raised after a failing obligation has been recorded when the rest of the check cannot proceed."""
 
 
+_EXPLORED: set = set()
+
+
+def _copy_args(a):
+    if isinstance(a, np.ndarray):
+        return a.copy()
+    if isinstance(a, (list, tuple)):
+        return type(a)(_copy_args(x) for x in a)
+    if isinstance(a, dict):
+        return {k: _copy_args(v) for k, v in a.items()}
+    return a
+
+
+def _like(I):
+    """a fresh interpreter configured like I"""
+    return Interp(I.program, externals=I.externals, stubs=I.stubs, cut_calls=I.cut_calls, perm_chooser=I.perm_chooser, max_depth=I.max_depth)
+
+
 def call_public(ctx, I, dotted, *args, **kw):
     """Interpret a public function on abstract inputs.  If the interpreted code raises on the generic
     path, that is itself a violation (the function raises for generic input)."""
     f = public(ctx, I, dotted)
+    cases = kw.pop("__cases__", None)
+    explore = kw.pop("__explore__", True)
+    saved = _copy_args(args), _copy_args(kw)
+    g0 = len(I.guards)
     try:
-        return I.call(f, tuple(args), kw)
+        out = I.call(f, tuple(args), kw)
+        if explore and (ctx.prop, dotted, keyof(saved[0])) not in _EXPLORED:
+            _EXPLORED.add((ctx.prop, dotted, keyof(saved[0])))
+            rule = f"{ctx.prop}.exit-paths"
+            if rule not in ctx.rules_doc:
+                ctx.rule(rule, "each data-dependent early-exit path of an interpreted public function (its own exits and those of the helpers it calls) returns what "
+                               "the generic path returns on the region of the exit: the function is re-interpreted with that one exit taken and compared after "
+                               "substituting what the exit condition says about the inputs (the generic path itself is held to the reference by the other rules)")
+
+            def again(I_):
+                return I_.call(public(ctx, I_, dotted), tuple(_copy_args(saved[0])), dict(_copy_args(saved[1])))
+            explore_exits(ctx, rule, dotted.split(".")[-1], I, g0, lambda: _like(I), again, out, defloc(ctx, dotted), cases=cases)
+        return out
     except RaiseSig as r:
         node = r.exc.node
         ctx.ob("generic-path-raises", dotted, False,
                f"{dotted} raises {r.exc.typename} on generic symbolic input (raise site line {getattr(node, 'lineno', '?')})",
                defloc(ctx, dotted))
         raise Abort()
+
+
+def _bare_sym(x):
+    x = lift(x)
+    if len(x.t) == 1:
+        ((m, c),) = x.t.items()
+        if len(m) == 1 and m[0][1] == 1 and c in (1, -1) and m[0][0].kind in ("sym", "psym"):
+            return m[0][0]
+    return None
+
+
+def _zero_terms(X, out):
+    """X >= 0 by construction and X <= tolerance: the symbols that are therefore (numerically) zero.  Returns False if X has a part whose
+    vanishing says nothing about single symbols."""
+    X = lift(X)
+    ok = True
+    for m, c in X.t.items():
+        if not m:
+            if c != 0:
+                return False
+            continue
+        if c < 0:
+            return False
+        for a, ex in m:
+            if a.kind in ("sym", "psym", "let") and isinstance(ex, int) and ex % 2 == 0:
+                out[a] = ZERO
+            elif a.kind == "abs":
+                inner = a.args[0]
+                b = inner if isinstance(inner, alg.Atom) else _bare_sym(inner)
+                if b is not None and b.kind in ("sym", "psym", "let"):
+                    out[b] = ZERO
+                elif isinstance(inner, E):
+                    # |c1*s + c0| squeezed to 0 for a single symbol s: s = -c0/c1
+                    syms = [x for x in alg.atoms_of(inner) if x.kind in ("sym", "psym")]
+                    lin = None
+                    if len(syms) == 1 and len(alg.atoms_of(inner)) == 1:
+                        c1 = alg.derive(inner, {syms[0]: ONE})
+                        c0 = alg.subst(inner, {syms[0]: ZERO})
+                        if c1.is_const() and c1.cval() != 0 and c0.is_const():
+                            lin = lift(-c0.cval() / c1.cval())
+                    if lin is not None:
+                        out[syms[0]] = lin
+                    else:
+                        ok = False
+                else:
+                    ok = False
+            elif a.kind == "fn:max" and isinstance(a.args[0], tuple):
+                for el in a.args[0]:
+                    if not _zero_terms(el, out):
+                        ok = False
+            elif a.kind in ("root", "fn:sqrt"):
+                if not _zero_terms(a.args[0], out):
+                    ok = False
+            elif a.kind == "let":
+                if not _zero_terms(a.defn, out):
+                    ok = False
+            else:
+                ok = False
+    return ok
+
+
+TOL = alg.Fr(1, 10 ** 6)
+
+
+def guard_substitution(g):
+    """What an early-exit condition that HOLDS says about single input symbols: exact equalities sym == expr, and symbols squeezed below a
+    tolerance <= 1e-6 (taken at 0, the centre of the region).  Returns {atom: E}; empty if the condition is not of that kind."""
+    from ..values import Guard
+    t = g.astuple() if isinstance(g, Guard) else g
+    out = {}
+    alg._guard_equalities(t, True, out)
+
+    def walk(t, truth):
+        if not (isinstance(t, tuple) and t and t[0] == "G"):
+            return
+        kind = t[1]
+        if kind == "not":
+            walk(t[2], not truth)
+        elif kind == "and" and truth:
+            for x in t[2:]:
+                walk(x, True)
+        elif kind == "or" and not truth:
+            for x in t[2:]:
+                walk(x, False)
+        elif kind == "all" and truth and t[2] == "eqzero":
+            for x in t[3]:
+                b = _bare_sym(x)
+                if b is not None:
+                    out.setdefault(b, ZERO)
+        elif kind == "cmp":
+            op, x, y = t[2], t[3], t[4]
+            if op == "between" and truth:
+                lo, hi = y
+                b = _bare_sym(x)
+                if b is not None and abs(lo.cval()) <= TOL and abs(hi.cval()) <= TOL:
+                    out.setdefault(b, ZERO)
+                return
+            if not (isinstance(x, E) and isinstance(y, E)):
+                return
+            if not truth:
+                op = {"Lt": "GtE", "LtE": "Gt", "Gt": "LtE", "GtE": "Lt", "Eq": "NotEq", "NotEq": "Eq"}[op]
+            small, big = None, None
+            if op in ("Lt", "LtE") and y.is_const() and 0 <= y.cval() <= TOL:
+                small = x
+            elif op in ("Gt", "GtE") and x.is_const() and 0 <= x.cval() <= TOL:
+                small = y
+            elif op == "Eq" and y.is_const() and y.cval() == 0:
+                small = x          # a sum of squares / moduli that is exactly zero
+            elif op == "Eq" and x.is_const() and x.cval() == 0:
+                small = y
+            if small is not None:
+                z = {}
+                if _zero_terms(small, z):
+                    for k_, v_ in z.items():
+                        out.setdefault(k_, v_)
+    walk(t, True)
+    return out
+
+
+def exits_agree(ctx, rule, construct, I, g0, ref, loc, what="value returned early", cases=None):
+    """Every data-dependent early return recorded by interpreter I since guard index g0 must equal the reference the generic path is held
+    to, on the region where it is taken: both are compared after substituting what the exit condition says about the inputs.  Exits whose
+    condition says nothing about single input symbols are listed as observations (not judged here)."""
+    n = 0
+    for g, outcome, gl, fn in I.guards[g0:]:
+        if outcome[0] != "return":
+            continue
+        v = outcome[1]
+        sub = guard_substitution(g)
+        if not sub:
+            ctx.observe(f"{construct}: early return at {gl} under {short(g, 80)} is not judged by {rule} (its condition is not an equality/tolerance on input symbols)")
+            continue
+        n += 1
+        va, ra = np.asarray(v, dtype=object), np.asarray(ref, dtype=object)
+        tag = f"{construct}:early return at {gl.split(' ')[0]}"
+        if va.shape != ra.shape:
+            ctx.ob(rule, tag, False, f"{what} has shape {va.shape}, the generic result {ra.shape}", gl)
+            continue
+
+        def f(va=va, ra=ra, sub=sub):
+            # `cases`: what else the domain of the function says on that region (e.g. a rotation matrix without off-diagonal entries has
+            # diagonal entries +-1): a list of further substitutions, all of which must agree
+            for extra in (cases(sub) if cases is not None else [{}]):
+                for i in np.ndindex(*va.shape):
+                    x, y = va[i], ra[i]
+                    if isinstance(x, Opaque) or isinstance(y, Opaque):
+                        return "inconclusive", f"opaque cell {i}"
+                    x, y = alg.subst(lift(x), sub), alg.subst(lift(y), sub)
+                    if extra:
+                        x, y = alg.subst(x, extra), alg.subst(y, extra)
+                    verdict, info = alg.decide(x, y)
+                    if verdict == "differ":
+                        where = {**sub, **extra}
+                        return False, (f"{what}, cell {list(i)}: {short(x)} != {short(y)} required on the region of the exit "
+                                       f"({', '.join(str(k_.args[0]) + ' = ' + short(v_, 12) for k_, v_ in list(where.items())[:9])}; witness {info})")
+                    if verdict != "equal":
+                        return "inconclusive", f"cell {i}: {info}"
+            return True, ""
+        ctx.check(rule, tag, f, gl)
+    return n
+
+
+def _flat_cells(v):
+    if isinstance(v, (tuple, list)):
+        out = []
+        for x in v:
+            out.extend(_flat_cells(x))
+        return out
+    if isinstance(v, np.ndarray):
+        return list(v.flat)
+    return [v]
+
+
+def explore_exits(ctx, rule, construct, generic, g0, new_interp, call, ref, loc, cases=None, limit=12, what="result"):
+    """The reference that the generic path of a public function is held to must also hold on each of its data-dependent early-exit paths.
+    The function is re-interpreted once per early exit met on the generic path (its own or a helper's), with that ONE exit taken instead of
+    skipped, and the final result is compared with the reference after substituting what the exit condition says about the inputs
+    (exact equalities; sums of squares / moduli that are zero or below a tolerance <= 1e-6).  Exits that raise, and exits whose condition is
+    not of that kind, are listed as observations.  No feasibility reasoning: an exit path is interpreted, never searched for."""
+    from ..values import Unsupported
+    judged = 0
+    refc = _flat_cells(ref)
+    todo = []
+    for gi, gl0, occ in generic.exit_ids:
+        if gi < g0 or gi >= len(generic.guards):
+            continue
+        g_, outcome_, _, _ = generic.guards[gi]
+        if outcome_[0] == "raise":
+            continue
+        if guard_substitution(g_):
+            todo.append((gl0, occ))
+        else:
+            ctx.observe(f"{construct}: early exit at {gl0} under {short(g_, 80)} is not judged by {rule} (its condition is not an equality/tolerance on inputs)")
+    for key in todo[:limit]:
+        Ik = new_interp()
+        Ik.force_exit = key
+        try:
+            outk = call(Ik)
+        except RaiseSig as r:
+            if Ik.forced is not None:
+                ctx.observe(f"{construct}: the early exit at {Ik.forced[1]} raises {r.exc.typename} (not judged by {rule})")
+            continue
+        except (Unsupported, alg.AlgError, Abort, ZeroDivisionError) as ex:
+            if Ik.forced is not None:
+                ctx.observe(f"{construct}: the path through the early exit at {Ik.forced[1]} is outside the interpreted subset ({str(ex)[:80]})")
+            continue
+        if Ik.forced is None:
+            continue
+        g, gl, fn = Ik.forced
+        sub = guard_substitution(g)
+        if not sub:
+            continue
+        outc = _flat_cells(outk)
+        tag = f"{construct}:path through the early exit at {gl}"
+        judged += 1
+        if len(outc) != len(refc):
+            ctx.ob(rule, tag, False, f"{what} has {len(outc)} cells on this path, {len(refc)} on the generic path", gl)
+            continue
+
+        def f(outc=outc, sub=sub):
+            for extra in (cases(sub) if cases is not None else [{}]):
+                for i, (x, y) in enumerate(zip(outc, refc)):
+                    if isinstance(x, Opaque) or isinstance(y, Opaque):
+                        return "inconclusive", f"opaque cell {i}"
+                    try:
+                        x2, y2 = alg.subst(lift(x), sub), alg.subst(lift(y), sub)
+                        if extra:
+                            x2, y2 = alg.subst(x2, extra), alg.subst(y2, extra)
+                    except ZeroDivisionError:
+                        continue          # the reference itself is undefined on this region (0/0): nothing to compare
+                    verdict, info = alg.decide(x2, y2)
+                    if verdict == "differ":
+                        where = {**sub, **extra}
+                        return False, (f"{what}, cell {i}: {short(x2)} != {short(y2)} required on the region of the exit "
+                                       f"({', '.join(short(E.atom(k_), 14) + ' = ' + short(v_, 12) for k_, v_ in list(where.items())[:9])}; witness {info})")
+                    if verdict != "equal":
+                        return "inconclusive", f"cell {i}: {info}"
+            return True, ""
+        ctx.check(rule, tag, f, gl)
+    return judged
 
 
 def func_calls(node):
